@@ -45,6 +45,9 @@ func (x *Exec) isNoEffectName(name string) bool {
 		return true
 	}
 	for _, p := range noEffectPkgs {
+		if x.Top != nil && pkgPathOf(x.Top) == p {
+			continue // inside the package itself its functions are real code
+		}
 		if strings.HasPrefix(name, p+".") || strings.HasPrefix(name, "(*"+p+".") || strings.HasPrefix(name, "("+p+".") {
 			return true
 		}
